@@ -1235,18 +1235,105 @@ def oracle_negative(check, desc, b, mi, v, proto, report=True):
     return fails
 
 
-def oracle_program(check, desc, b, tier):
+def oracle_program(check, desc, b, tier, fixed=None):
+    """returns the (message class id, value) pairs it ran, for the conformance correspondence"""
     rng = check.rng
     n = 2 if tier == 'quick' else 6
-    for mi, m in enumerate(desc['methods']):
-        for _ in range(n):
-            v = gen_value(rng, desc, m['ty'], depth=rng.randint(1, 3), in_quant=True)
+    ran = []
+    todo = []
+    if fixed is not None:
+        todo = list(fixed)
+    else:
+        for mi, m in enumerate(desc['methods']):
+            for _ in range(n):
+                todo.append((mi, gen_value(rng, desc, m['ty'], depth=rng.randint(1, 3), in_quant=True)))
+    for mi, v in todo:
+        m = desc['methods'][mi]
+        ran.append((m['in'], v))
+        if True:
             for proto in XML_PROTOS + DICT_PROTOS:
                 for poly in (True, False):
                     oracle_case(check, desc, b, mi, v, proto, poly)
                     check.count(('oracle', proto, poly, json.dumps(desc, sort_keys=True), repr(v)))
-                if rng.random() < 0.5:
+                if fixed is not None or rng.random() < 0.5:
                     oracle_negative(check, desc, b, mi, v, proto)
+    return ran
+
+
+# ------------------------------------------------------------------ the theorems' hypotheses on the exercised inputs
+def corr_hypotheses(check, desc, prelude, tag, values):
+    """the universe-level hypotheses of the theorems hold for the generated program, and the
+    in-quantifier values the oracle runs are conformant in the theorems' sense (so the theorems
+    speak about exactly these inputs)"""
+    lib.correspond(check, 'hypotheses', prelude, 'unit',
+                   '(fun _ => wf_universe UU && elem_only UU && keys_ok UU TNS && sub_names_ok UU '
+                   '&& forallb (fun p => pfx_ok (snd p)) PMAP && negb (Nat.eqb (length REG) 0))',
+                   [('tt', '%s: wf_universe / elem_only / keys_ok / sub_names_ok / pfx_ok / populate' % tag)],
+                   show='(fun _ : unit => (wf_universe UU, elem_only UU, keys_ok UU TNS, sub_names_ok UU, '
+                        'forallb (fun p => pfx_ok (snd p)) PMAP, length REG))')
+    cases = []
+    for cid, v in values:
+        cases.append(('(%d%%nat, %s)' % (cid, U.g_val(('obj', cid, [v]))), '%s conformance of %r' % (tag, v)))
+    lib.correspond(check, 'conformance', prelude, 'nat * val',
+                   '(fun c => pconf spyne_leaf UU true (registered REG UU) %d (TRef (fst c)) (snd c) '
+                   '&& pconf spyne_leaf UU true (fun _ => true) %d (TRef (fst c)) (snd c) '
+                   '&& hconf dict_leaf UU true %d (TRef (fst c)) (snd c))' % (FUEL, FUEL, FUEL), cases,
+                   show='(fun c : nat * val => (pconf spyne_leaf UU true (registered REG UU) %d (TRef (fst c)) (snd c), '
+                        'hconf dict_leaf UU true %d (TRef (fst c)) (snd c)))' % (FUEL, FUEL))
+
+
+# ------------------------------------------------------------------ fixed corpus (theorem witnesses and boundary programs)
+def _f(name, ty, mn=0, mx=1, nil=True):
+    return {'name': name, 'ty': ty, 'min': mn, 'max': mx, 'nillable': nil, 'kind': 'elem'}
+
+
+def _prog(tns, classes, decls):
+    classes = [dict(c) for c in classes]
+    n_user = len(classes)
+    methods = []
+    for i, (ty, mn, nil, plain) in enumerate(decls):
+        classes.append({'ns': tns, 'name': 'm%d' % i, 'parent': None, 'fields': [_f('x', ty, mn, 1, nil)], 'msg': True})
+        classes.append({'ns': tns, 'name': 'm%dResponse' % i, 'parent': None, 'fields': [_f('m%dResult' % i, ty, mn, 1, nil)], 'msg': True})
+        methods.append({'name': 'm%d' % i, 'ty': ty, 'min': mn, 'nillable': nil, 'in': n_user + 2 * i, 'out': n_user + 2 * i + 1,
+                        'plain': plain})
+    return {'tns': tns, 'classes': classes, 'n_user': n_user, 'methods': methods}
+
+
+def corpus():
+    """(name, program, [(method index, value)])"""
+    P, R, A = (lambda p: ('prim', p)), (lambda c: ('ref', c)), (lambda t: ('arr', t))
+    out = []
+    # 1. the smallest tree: Base <- Sub in the application's namespace (DESIGN.md's witness)
+    p1 = _prog('urn:a', [{'ns': 'urn:a', 'name': 'Base', 'parent': None, 'fields': [_f('a', P('int'))]},
+                         {'ns': 'urn:a', 'name': 'Sub', 'parent': 0, 'fields': [_f('b', P('text'))]}],
+               [(R(0), 0, True, True), (R(0), 1, False, False)])
+    out.append(('two-class', p1, [(0, ('obj', 1, [('int', 1), ('text', 'x')])), (1, ('obj', 1, [('int', 2), ('none',)])),
+                                  (0, ('obj', 0, [('int', 3)]))]))
+    # 2. the program of Props/C16.v: member-less intermediate class, recursive member, container in
+    #    another namespace with single / Array / max_occurs>1 members, an instance with every member None
+    p2 = _prog('urn:a', [{'ns': 'urn:b', 'name': 'Base', 'parent': None, 'fields': [_f('a', P('int'), 1)]},
+                         {'ns': 'urn:b', 'name': 'Mid', 'parent': 0, 'fields': []},
+                         {'ns': 'urn:b', 'name': 'Leaf', 'parent': 1, 'fields': [_f('c', P('text')), _f('kid', R(0))]},
+                         {'ns': 'urn:b', 'name': 'Other', 'parent': None, 'fields': [_f('z', P('bool'))]},
+                         {'ns': 'urn:a', 'name': 'Box', 'parent': None,
+                          'fields': [_f('x', R(0)), _f('xs', A(R(0))), _f('ms', R(1), 0, None)]}],
+               [(R(4), 0, True, True), (R(1), 0, True, False), (A(R(0)), 0, True, True)])
+    leaf = ('obj', 2, [('int', 7), ('text', 'hi'), ('obj', 1, [('int', -1)])])
+    box = ('obj', 4, [leaf, ('list', [('obj', 0, [('int', 0)]), ('obj', 1, [('int', 1)]), leaf]),
+                      ('list', [('obj', 2, [('int', 5), ('none',), ('none',)]), ('obj', 1, [('int', 6)])])])
+    out.append(('props-example', p2, [(0, box), (1, ('obj', 2, [('int', 1), ('none',), ('none',)])),
+                                      (1, leaf), (2, ('list', [leaf, ('obj', 1, [('int', 9)]), ('obj', 0, [('int', 8)])])),
+                                      (0, ('obj', 4, [('obj', 1, [('int', 4)]), ('none',), ('none',)]))]))
+    # 3. a subclass whose members are all optional, held by a container of another namespace: the
+    #    marker is the only use of the subclass's namespace in the document
+    p3 = _prog('urn:a', [{'ns': 'urn:b', 'name': 'Base', 'parent': None, 'fields': [_f('a', P('int'))]},
+                         {'ns': 'urn:b', 'name': 'Sub', 'parent': 0, 'fields': [_f('b', P('text'))]},
+                         {'ns': 'urn:c', 'name': 'Sub2', 'parent': 1, 'fields': [_f('c', P('int'))], 'far': True},
+                         {'ns': 'urn:a', 'name': 'Box', 'parent': None, 'fields': [_f('x', R(0)), _f('n', P('int'))]}],
+               [(R(3), 0, True, True)])
+    out.append(('all-none-subclass', p3, [(0, ('obj', 3, [('obj', 1, [('none',), ('none',)]), ('int', 1)])),
+                                          (0, ('obj', 3, [('obj', 1, [('int', 1), ('text', 'q')]), ('none',)]))]))
+    return out
 
 
 # ------------------------------------------------------------------ run
@@ -1265,7 +1352,7 @@ def prelude_factory(desc):
     return f
 
 
-def run_program(check, desc, tag, tier, with_codecs=True):
+def run_program(check, desc, tag, tier, with_codecs=True, fixed=None):
     b = build(desc)
     app = get_app(desc, b, 'XmlDocument', True)
     pf = prelude_factory(desc)
@@ -1275,7 +1362,8 @@ def run_program(check, desc, tag, tier, with_codecs=True):
     if with_codecs:
         corr_xml(check, desc, b, pf, tag, tier)
         corr_hier(check, desc, b, pf, tag, tier)
-        oracle_program(check, desc, b, tier)
+        ran = oracle_program(check, desc, b, tier, fixed)
+        corr_hypotheses(check, desc, pf(app), tag, ran)
     return b
 
 
@@ -1286,11 +1374,38 @@ def run(check):
                   'placed elsewhere, member-less intermediate classes, recursive members), an unrelated class, containers with '
                   'single / max_occurs>1 / Array members of base type, echo methods over plain and customised declared types; '
                   'a case is distinct by (operation, protocol, polymorphic, program, value or document)')
-    check.trusted = list(lib.COMMON_TRUSTED)
-    check.assumptions = []
+    check.trusted = list(lib.COMMON_TRUSTED) + [
+        'lxml: SubElement(..., nsmap={prefix: uri}) declares the prefix on the new element; cleanup_namespaces('
+        'keep_ns_prefixes=...) keeps it; element.nsmap is the innermost-first union of the declarations of the element '
+        'and its ancestors; serialise/parse preserves declarations, attribute values and element order (modelled as the '
+        'scope threading of pdec and as [wire]; tied by the xml_enc / xml_dec correspondences, which render the '
+        'implementation\'s documents with their own declarations and compare the receiver-side resolution of every xsi:type)',
+        'json / PyYAML / msgpack: loads(dumps(d)) = d on documents made of null, booleans, 64-bit integers, text, lists and '
+        'text-keyed maps (msgpack bin values and keys are shown as UTF-8 text by the harness)',
+        'Python class machinery as used by Spyne\'s metaclass: __extends__ is what the universe calls the parent link '
+        '(compared class by class in the flat_type_info correspondence), isinstance/issubclass follow it, '
+        'Attributes._subclasses lists direct subclasses in creation order',
+        'prefix allocation (Interface.get_namespace_prefix) is not modelled: the prefix table the interface ended up with '
+        'is an input of every case; the theorems hold for any table whose prefixes are non-empty and colon-free',
+        'the leaf codecs of Integer / Unicode / Boolean: C08 via C01/Leaf.v for XML; for dict documents the identity on '
+        '64-bit integers, text and booleans (C16/Leaf.v), other leaves are C02\'s subject',
+    ]
+    check.assumptions = [
+        'theorem hypotheses, all decidable and evaluated on every generated program (correspondence "hypotheses"): '
+        'wf_universe (acyclic single inheritance, distinct flattened member names), elem_only (no XmlAttribute members), '
+        'keys_ok (distinct types have distinct {ns}name keys), sub_names_ok (type names distinct among a class and its '
+        'subclasses), pfx_ok of every allocated prefix, populate returns Some (fuel)',
+        'the values the oracle runs are conformant in the theorems\' sense (correspondence "conformance"): runtime '
+        'classes other than the declared one are registered; no None inside lists; complex / array members are optional '
+        '(an explicit null complex member is read back as [] by the dict protocols: C02\'s subject)',
+        'validator=None for the theorems (soft validation is modelled and exercised by the xml_dec correspondence only); '
+        'ignore_wrappers=False, complex_as=dict, default polymap, no sub_name / sub_ns / XmlData / XmlAttribute / mixins',
+    ]
     check.regen(['numtypes', 'c16shape'])
     check.check_sources()
     check.prove('Props.C16', THEOREMS)
+    for name, desc, vals in corpus():
+        run_program(check, desc, 'corpus %s' % name, tier, fixed=vals)
     n_prog = 6 if tier == 'quick' else 40
     for pi in range(n_prog):
         desc = gen_tree(rng)
@@ -1303,7 +1418,37 @@ def run(check):
     return check.finish()
 
 
+def _tuplify(v):
+    if isinstance(v, list):
+        return tuple(_tuplify(x) if isinstance(x, list) and x and isinstance(x[0], str) else
+                     ([_tuplify(y) for y in x] if isinstance(x, list) else x) for x in v)
+    return v
+
+
 def replay(check, path):
+    """re-runs the recorded case against the implementation and prints what the oracle sees"""
     r = json.load(open(path))
-    print(json.dumps(r, indent=1)[:3000])
-    return 0
+    rp = r.get('replay', {})
+    print('property %s  key %s' % (r.get('property'), r.get('key')))
+    print('recorded: %s' % r.get('what', '')[:1500])
+    if rp.get('kind') not in ('roundtrip', 'negative'):
+        print(json.dumps(rp, indent=1)[:3000])
+        return 0
+    desc = rp['program']
+    for c in desc['classes']:
+        for f in c['fields']:
+            f['ty'] = _tuplify(f['ty'])
+    for m in desc['methods']:
+        m['ty'] = _tuplify(m['ty'])
+    v = _tuplify(rp['value'])
+    b = build(desc)
+    if rp['kind'] == 'roundtrip':
+        fails = oracle_case(check, desc, b, rp['method'], v, rp['protocol'], rp['polymorphic'], report=False)
+    else:
+        fails = [(k, w) for k, w, _ in oracle_negative(check, desc, b, rp['method'], v, rp['protocol'], report=False)]
+    if not fails:
+        print('replay: the case passes on this tree')
+        return 0
+    for k, w in fails:
+        print('replay: STILL FAILS [%s] %s' % (k, w[:1200]))
+    return 1
